@@ -682,4 +682,30 @@ def mayWrite (c : Call) : List (Nat × Nat × Nat) :=
     | some p => dstRange (c.arg "dst") ((c.arg "ciphertext").len - p.tagSize)
   else []
 
+/-! ## the dispatch tables the model implements, in the shape `factgen_c17` extracts them from
+the `switch algorithm` statements (compared with `Generated.C17.switches` by a `decide`d theorem) -/
+
+def dispatchTables : List (String × List (List String)) := [
+  ("Decrypt", [algsEncryptSymmetric, algsEncryptAsymmetric]),
+  ("DecryptPrivateKey", [["RSA1_5"], ["RSA-OAEP"], algsRSAOAEPSHA2]),
+  ("DecryptSymmetric", [algsCBC ++ algsCBCNoPad, algsGCM, algsCBCHMAC, algsKW, algsChaCha]),
+  ("Encrypt", [algsEncryptSymmetric, algsEncryptAsymmetric]),
+  ("EncryptPublicKey", [["RSA1_5"], ["RSA-OAEP"], algsRSAOAEPSHA2]),
+  ("EncryptSymmetric", [algsCBC ++ algsCBCNoPad, algsGCM, algsCBCHMAC, algsKW, algsChaCha]),
+  ("SignPrivateKey", [algsRS, algsPS, algsES, ["EdDSA"]]),
+  ("VerifyPublicKey", [algsRS, algsPS, algsES, ["EdDSA"]])]
+
+/-- same algorithms in a case clause, in any order -/
+def sameSet (a b : List String) : Bool := a.all b.contains && b.all a.contains
+
+def sameClauses : List (List String) → List (List String) → Bool
+  | [], [] => true
+  | a :: as, b :: bs => sameSet a b && sameClauses as bs
+  | _, _ => false
+
+def sameTables : List (String × List (List String)) → List (String × List (List String)) → Bool
+  | [], [] => true
+  | (f, cs) :: as, (g, ds) :: bs => f == g && sameClauses cs ds && sameTables as bs
+  | _, _ => false
+
 end Kit.CryptoFrame
